@@ -8,7 +8,9 @@
 //! the de-duplicated phase) keys over a 3–5 key per-schema alphabet (NULLs, the
 //! type's default value, long/short view strings sharing a prefix, keys whose
 //! multi-column hashes collide *structurally*), `emit(All)`, `emit(First(n))`
-//! for 1 ≤ n ≤ len, `clear_shrink(0|2)`.
+//! for 1 ≤ n ≤ len, `clear_shrink(0|2)`.  Histories follow the protocol every caller in
+//! /repo follows: `clear_shrink` only on an empty store, and `emit(All)` is followed
+//! by `clear_shrink` before the next `intern`.
 //!
 //! Two exhaustive phases per (schema, ordering, input encoding):
 //!  * `full`  — every history up to depth dA, no de-duplication;
@@ -653,6 +655,12 @@ fn run_history(def: &SchemaDef, sorted: bool, enc: u8, history: &[Op], mut trace
         let at = |d: String| format!("step {step} {op:?}: {d}");
         match op {
             Op::Intern(batch) => {
+                // Operator protocol: after `emit(All)` the store is reset with `clear_shrink` before it is
+                // reused (every caller in /repo does so); interning into a drained-but-not-cleared store is
+                // outside the explored histories.
+                if st.origin == 1 {
+                    return Outcome::Disabled;
+                }
                 let cols: Vec<ArrayRef> = (0..ncols)
                     .map(|c| {
                         let vals: Vec<V> = batch.iter().map(|k| def.keys[*k][c].clone()).collect();
@@ -798,6 +806,10 @@ fn run_history(def: &SchemaDef, sorted: bool, enc: u8, history: &[Op], mut trace
                 }
             }
             Op::Clear(rows) => {
+                // Operator protocol: `clear_shrink` is only ever applied to a drained (or fresh) store.
+                if !live.is_empty() {
+                    return Outcome::Disabled;
+                }
                 if let Err(p) = mc_core::catch(|| gv.clear_shrink(*rows)) {
                     return viol("CLEAR_PANIC", at(p));
                 }
@@ -1178,9 +1190,10 @@ fn explore(ctx: &Ctx) {
             "keys_per_schema": "3-5 (NULL, type default, collision-prone / long-vs-short view strings)",
             "phase_full": {"max_depth": depth_full, "max_batch_rows": batch_full, "dedup": false, "input_encodings": if ctx.quick() { "0 only" } else { "0 to max_depth, others to max_depth - 1" }},
             "phase_dedup": {"max_depth": depth_dedup, "max_depth_note": if ctx.quick() { "one less for GroupValuesPrimitive / GroupValuesBytes / GroupValuesBoolean" } else { "same for all" }, "max_batch_rows": batch_dedup, "dedup": "reference key list + (origin of emptiness, NULL seen, partial emit seen)"},
-            "ops": "intern(batch), emit(All), emit(First(n)) 1<=n<=len, clear_shrink(0|2)"
+            "ops": "intern(batch) [not directly after emit(All)], emit(All), emit(First(n)) 1<=n<=len, clear_shrink(0|2) [empty store only]"
         }),
     );
+    ctx.assume("operator protocol: clear_shrink is applied only to an empty (drained or fresh) store, and after emit(All) the store is cleared before the next intern - the only call patterns present in /repo; other orders are not explored");
     ctx.assume("float keys exclude -0.0 (whether -0.0 and +0.0 are one key is implementation-defined and not part of the property)");
     ctx.assume("emit on an empty store may be refused (counted in emit_on_empty_refused); the property requests no id there");
     ctx.assume("state merging in phase 'dedup' assumes later answers depend only on the live key list and the recorded hidden-state abstraction; phase 'full' makes no such assumption");
